@@ -32,7 +32,7 @@ def run(chk):
     chk.rule('C08-R4', 'mode weight is 1 for k=0 and 2k=n, 2 otherwise, for counts and all weighted sums alike', 6)
     chk.rule('C08-R5', 'per-thread accumulators: sized by the thread count, row = get_thread_id(), int64 counts, summed over axis 0, guarded division', 8)
     chk.rule('C08-R6', 'loops i,j in [0,n), k in [0,n//2+1); mesh value read at [i,j,k]', 2)
-    chk.rule('C08-R7', 'P_n(mu^2, l) is the Legendre polynomial P_l(mu) for l = 0,2,...,10 (exact polynomial identity); pole weight = (2l+1) P_l', 7)
+    chk.rule('C08-R7', 'P_n(mu^2, l) is the Legendre polynomial P_l(mu) for l = 0..6, 8, 10 (even and odd orders; exact identity in powers of mu); pole weight = (2l+1) P_l', 10)
     chk.assume('which side of an edge a mode lying exactly on it falls is not fixed by the statement (float32 rounding decides)')
     chk.assume('mu^2 = k^2/|k|^2 <= 1 <= muedges[-1] ("mu ranges from 0 to 1"): the mu search needs no explicit guard')
     src = chk.src
@@ -842,7 +842,7 @@ def legendre(chk):
                 nxt[p] = nxt.get(p, 0) - c * Fraction(n, n + 1)
             P0, P1 = P1, {p: c for p, c in nxt.items() if c != 0}
         return P1
-    for l in (0, 2, 4, 6, 8, 10):
+    for l in (0, 1, 2, 3, 4, 5, 6, 8, 10):
         try:
             got = run_Pn(l)
         except (NotInDomain, KeyError, IndexError, AttributeError) as e:
